@@ -440,7 +440,9 @@ def judge (ops outs : List String) : String :=
             if J.stors.any coFault then s!"violation commit-failure-not-reported op={k}"
             else if calls.any (· ≠ "c") then s!"violation commit-not-reaching-all op={k} calls={commas calls}"
             else
-              match (indexed deltas).find? (fun p => p.2.filter (J.succeeded.contains ·) ≠ J.succeeded || !sublistOf p.2 J.attempted) with
+              -- succeeded ⊑ stored ⊑ attempted as subsequences (an attempt that failed on a later storage may stay in
+              -- an earlier one; compared by position, not by value: the same sample can be attempted twice)
+              match (indexed deltas).find? (fun p => !sublistOf J.succeeded p.2 || !sublistOf p.2 J.attempted) with
               | some p => s!"violation committed-data-mismatch op={k} storage={p.1} want={joinOr J.succeeded ","} got={joinOr p.2 ","}"
               | none => go J' ops outs (k + 1)
           else
